@@ -48,8 +48,9 @@ CLAIMED = {
         "text": ("partial - clauses decided: VectorWithOffset<T> representation invariant preserved and abstract view (index range + "
                  "every element via a ghost index) specified for each operation under contract; out-of-range at() and "
                  "arithmetic on non-matching ranges report an error and write nothing; no access outside the owned block "
-                 "(pointer/bounds obligations, symbolic length up to 65536, unbounded via loop contracts). Not decided: Array<n>=2..4, "
-                 "iteration order, shared-memory views."),
+                 "(pointer/bounds obligations, symbolic length up to 65536, unbounded via loop contracts); Array<n>=2..>::is_contiguous is true iff every "
+                 "sub-array is contiguous and starts where the previous one ends (sub-arrays abstracted by contiguity flag, size and first address). "
+                 "Not decided: the other Array<n>=2..4 operations, iteration order, shared-memory views."),
         "note": ("trusted: cbmc 6.11.0; extraction rule classes; shared_ptr as sole-owner pointer; std::copy/fill/equal models "
                  "(each verified against its contract); induction over operation histories argued in DESIGN.md, not machine-checked"),
     },
